@@ -135,11 +135,23 @@ Fixpoint scan_expression_loop (fuel : nat) (i : xinput) (parens : nat) : res (te
         bind (scan_expression_loop f i1 parens) (fun '(w, p, i3) => Ok (ch :: w, p, i3))
   end.
 
-(* func (s *xscanner) scanExpression() (XTokenType, string) *)
-Definition scan_expression (fuel : nat) (i : xinput) : res (toktype * text * xinput) :=
+(* strings.ReplaceAll(body, "@@", "@"): non-overlapping occurrences, left to right *)
+Fixpoint replace_atat (t : text) : text :=
+  match t with
+  | [] => []
+  | c :: r =>
+      match r with
+      | d :: r' => if (c =? r_at) && (d =? r_at) then r_at :: replace_atat r' else c :: replace_atat r
+      | [] => [c]
+      end
+  end.
+
+(* func (s *xscanner) scanExpression() (XTokenType, string).  When the expression never closes, what was read is
+   body text like any other: with unescapeBody set, "@@" in it is an escaped '@' (repair of hunt finding C12/1) *)
+Definition scan_expression (unescape_body : bool) (fuel : nat) (i : xinput) : res (toktype * text * xinput) :=
   bind (scan_expression_loop fuel i 1) (fun '(w, p, i') =>
   if Nat.eqb p 0 then Ok (EXPRESSION, w, i')
-  else Ok (BODY, r_at :: r_lparen :: w, i')).
+  else Ok (BODY, r_at :: r_lparen :: (if unescape_body then replace_atat w else w), i')).
 
 (* loop of scanIdentifier: buf and topLevel are read inside the loop, hence accumulators *)
 Fixpoint scan_identifier_loop (fuel : nat) (i : xinput) (buf top : text) : res (text * text * xinput) :=
@@ -211,7 +223,7 @@ Definition scan (tops : option (list text)) (unescape_body : bool) (i : xinput)
   if ch =? eof then Ok (EOF_T, [], i1)
   else if ch =? r_at then
     let (peek, i2) := read i1 in
-    if peek =? r_lparen then scan_expression fuel i2
+    if peek =? r_lparen then scan_expression unescape_body fuel i2
     else if peek =? r_at then
       bind (unread r_at i2) (fun i3 => bind (unread r_at i3) (fun i4 => scan_body unescape_body fuel i4))
     else if is_name_char peek then
